@@ -435,7 +435,8 @@ def _eval_call (repo, module, e, env, cls):
   fn = e.func
   hook = getattr(env, 'call_hook', None)
   if hook is not None:
-    hit, v = hook(e)
+    if getattr(hook, 'wants_env', False): hit, v = hook(e, env)
+    else: hit, v = hook(e)
     if hit: return v
   if isinstance(fn, ast.Name) and not e.keywords:
     args = [eval_env2(repo, module, a, env, cls) for a in e.args]
@@ -540,6 +541,13 @@ def _assign_env (repo, module, st, env, cls):
           _kill(ne, x.id); ne.exact[x.id] = v
         return ne
     except Exception: pass
+  if isinstance(st, ast.AugAssign) and isinstance(st.target, ast.Name):
+    nm = st.target.id
+    try:
+      val = eval_env2(repo, module, ast.BinOp(left=ast.Name(id=nm, ctx=ast.Load()), op=st.op, right=st.value), env, cls)
+      _kill(ne, nm); ne.exact[nm] = val
+      return ne
+    except Exception: pass
   # anything else: kill every name stored
   for t in (st.targets if isinstance(st, ast.Assign) else [st.target]):
     for tt in _flatten(t):
@@ -591,3 +599,37 @@ def must_pass_under (repo, module, g, env, targets, cls=None, start=None, stops=
       if l == 'exc' or m in seen or m not in r or m in tg: continue
       seen.add(m); st.append(m)
   return not any(s in seen for s in stops), r
+
+
+class PureCallHook(object):
+  """Call hook that evaluates calls to small pure module-level helper
+  functions of `module` on constant arguments (constant propagation through
+  the helper's CFG; exactly one return value must result)."""
+  wants_env = True
+  def __init__ (self, repo, module, cls=None):
+    self.repo = repo; self.module = module; self.cls = cls; self.depth = 0
+  def __call__ (self, call, env):
+    fn = call.func
+    f = None
+    if isinstance(fn, ast.Name): f = self.module.funcs.get(fn.id)
+    elif isinstance(fn, ast.Attribute) and norm(fn.value) == 'self' and self.cls is not None:
+      f = self.cls.find_method(fn.attr)
+    if f is None or call.keywords or self.depth > 3: return (False, None)
+    try: args = [eval_env2(self.repo, self.module, a, env, self.cls) for a in call.args]
+    except Exception: return (False, None)
+    ps = f.params
+    if f.cls is not None and not f.is_static: ps = ps[1:]
+    if len(ps) != len(args): return (False, None)
+    g = cfg_of(f)
+    inner = Env(dict(zip(ps, args)), call_hook=self)
+    res = []
+    def on_node (n, e):
+      if n.kind == 'return' and n.ast.value is not None:
+        try: res.append(eval_env2(self.repo, self.module, n.ast.value, e, self.cls))
+        except Exception: res.append(_Unknown)
+    self.depth += 1
+    try: paths_under(self.repo, self.module, g, inner, g.entry, [g.exit], self.cls, limit=20, on_node=on_node)
+    finally: self.depth -= 1
+    vals = [r for r in res if r is not _Unknown]
+    if res and len(vals) == len(res) and all(v == vals[0] for v in vals): return (True, vals[0])
+    return (False, None)
